@@ -40,6 +40,31 @@ CHECKS = {
              "(replays run the real str() and parse the text).",
         technique='contract-based deductive verification of the three __str__ methods against a denotation contract; '
                   'AST scans for the renderers'),
+    'C17': dict(
+        category='proof',
+        text="Option precedence as postconditions of Options.getopt/setopt/normalize (force > caller > file > default, for every "
+             "content of the four layers); every statutory rule's options() proved to force its statutory arithmetic, precision, "
+             "display (guard, omega) whatever the caller/file layers hold; SCAN obligations: statutory modules read no other "
+             "option, their count() reads none, merge order in Election.__init__.",
+        design_ref='DESIGN 6/C17, 11.4',
+        note=COMMON_NOTE + "'identical count whatever options are supplied' is the composition forced-values (proved) + "
+             "option-read frame (SCAN) + no hidden state (C20); Options.record/unused/overrides (the reporting half of sentence 1) "
+             "are not yet under contract.",
+        technique='contract-based deductive verification (dictionaries as SMT arrays), AST scans for the option-read frame'),
+    'C20': dict(
+        category='proof',
+        text="initialize() of Fixed, Guarded and Rational verified from an ARBITRARY prior class state: the class invariant and "
+             "precision/guard/display are functions of the options alone, no class attribute is read before it is assigned and "
+             "every attribute is reassigned on every returning path (REL obligations per path); ArithmeticClass dispatch; SCAN "
+             "obligations: class attributes written nowhere else, no module-level mutable state, rule class constants never "
+             "assigned, the profile is read-only for Election and the rules.",
+        design_ref='DESIGN 6/C20, 11.5',
+        note=COMMON_NOTE + "Guarded.epsilon (guard>0) and Guarded.__scaledg (display<=precision) may keep an older value: their "
+             "readers are shown not to depend on it (V.epsilon is read only when not V.exact: site obligation; __str__ is proved for "
+             "every value of __scaledg in that case). Byte-for-byte record equality is the composition of these with determinism of "
+             "count() (no clock/random/IO: SCAN under C19).",
+        technique='contract-based deductive verification of initialize() from a havocked class state (non-interference as '
+                  'per-path read-before-write / all-assigned obligations) plus AST scans'),
 }
 
 NOT_APPLICABLE = {
